@@ -28,7 +28,7 @@ ASSUMPTIONS = [
     "forked / multi-process savers are exercised in-process only",
     "threaded scenarios run under two deterministic schedules (keep running the current thread / always switch to the newest enabled thread), so operation numbering is stable within a scenario; schedule x fault combinations only in the thorough tier (delay bound 1)",
 ]
-BOUNDS = {"quick": "22 scenarios (two with a second writable frontend), all single faults + retry", "quick_pipe": "74 (stage, chunk) exception / abandon cells x processors, delay bound 0 (a rotating third at bound 1); thorough: bound 1 for all", "thorough": "22 scenarios, single faults + retry + second fault during retry (every k2 for a rotating slice of k); schedule exploration of pool/threaded saving with one fault"}
+BOUNDS = {"quick": "22 scenarios (two with a second writable frontend), all single faults + retry; 74 (stage, chunk) exception / abandon cells x processors at delay bound 0 (a rotating third at bound 1)", "thorough": "74 exception / abandon cells x processors at delay bound 1; 22 scenarios, single faults + retry + second fault during retry (every k2 for a rotating slice of k); schedule exploration of pool/threaded saving with one fault"}
 RUN = "0"
 
 IV = ((0, 1), (2, 3), (4, 5), (5, 6))
